@@ -28,7 +28,10 @@ import (
 // A REAL lighthouse node (goroutine-free E4 assembly: real PKI, HostMap, HandshakeManager, Interface, dnsServer built
 // by newDnsServerFromConfig) and real peer nodes. History events are real handshakes over the virtual wire (peer- and
 // lighthouse-initiated, complete and incomplete, with valid certificates, certificates of a foreign CA, expired and
-// blocklisted certificates, names that collide case-insensitively), tunnel close and serve_dns reloads. In every
+// blocklisted certificates, names that collide case-insensitively, peers of different certificate names that share one
+// overlay address), the network's share of a handshake (a first message delayed and delivered later — possibly after
+// another handshake for that address completed, so that it is refused as too old AFTER its certificate verified — and a
+// first message delivered twice), tunnel close and serve_dns reloads. In every
 // reached state the full query product (1-2 questions x types x names in several spellings x client addresses x
 // opcode) is sent to the REAL handler (dnsServer.handleDnsRequest, the function registered on the mux) with a fake
 // dns.ResponseWriter, and every response is judged against the statement:
@@ -62,7 +65,16 @@ var c44Peers = []c44Peer{
 	{"blocked", "Blocked", "10.0.0.69/24", cert.Version2, "192.0.2.69:4242", "blocklisted"},
 	{"delta1", "delta", "10.0.0.7/24", cert.Version1, "192.0.2.7:4242", "valid"},
 	{"lhtwin", "LightHouse1", "10.0.0.9/24", cert.Version2, "192.0.2.9:4242", "valid"},
+	// peers whose certificate (CA-valid, another name) claims an overlay address that a peer above holds too: which of
+	// the two handshakes the lighthouse keeps is decided AFTER certificate verification (handshake time / retransmit)
+	{"ghost4", "Ghost", "10.0.0.2/24", cert.Version2, "192.0.2.12:4242", "valid"},
+	{"phantom46", "Phantom", "10.0.0.4/24,fd00::44/64", cert.Version2, "192.0.2.14:4242", "valid"},
 }
+
+const (
+	c44Ghost   = 11
+	c44Phantom = 12
+)
 
 const (
 	c44LHName = "Lighthouse1"
@@ -71,7 +83,11 @@ const (
 )
 
 type c44Ev struct {
-	Op   string // hs | hsOut | hsLost | close | off | on
+	// hs | hsOut | hsLost | close | off | on, and the network's share of a handshake history:
+	// hsHold  the peer builds and sends its first handshake message now, the network delays it
+	// hsLate  the delayed first message reaches the lighthouse now (whatever has happened to that address meanwhile)
+	// hsDup   the network delivers once more the last first message of that peer the lighthouse has already received
+	Op   string
 	Peer int
 }
 
@@ -166,6 +182,11 @@ type c44World struct {
 	selfKnown bool
 	hist      []string
 	notes     []string
+	// the network's memory: delayed first messages (and the virtual time they were built at), and the last first
+	// message of every peer that was put on the wire towards the lighthouse
+	held   map[int]vpkt
+	heldAt map[int]uint64
+	first  map[int]vpkt
 }
 
 func c44LHOverrides(cfg c44Cfg) m {
@@ -204,7 +225,8 @@ func c44NewWorld(t testing.TB, c *mc.Check, cfg c44Cfg, need map[int]bool) *c44W
 		}
 		specs = append(specs, vnodeSpec{Name: p.Name, Networks: p.Networks, Udp: p.Udp, Version: p.Version, Overrides: ov})
 	}
-	w := &c44World{c: c, cfg: cfg, peers: map[int]*vnode{}, byFP: map[string]c44CertInfo{}, seenHI: map[string]bool{}}
+	w := &c44World{c: c, cfg: cfg, peers: map[int]*vnode{}, byFP: map[string]c44CertInfo{}, seenHI: map[string]bool{},
+		held: map[int]vpkt{}, heldAt: map[int]uint64{}, first: map[int]vpkt{}}
 	w.net = vNewNet(t, c.Seed(), specs...)
 	w.lh = w.net.nodes[0]
 	for k, i := range order {
@@ -233,6 +255,7 @@ func (w *c44World) close() { w.net.close() }
 // until that node has no pending handshake left (or the round budget is spent: handshakes that must fail keep retrying).
 func (w *c44World) run(ticker *vnode, rounds int) {
 	w.net.collect()
+	w.noteFirsts()
 	for r := 0; r < rounds; r++ {
 		w.net.flushFIFO(100)
 		if len(ticker.pendingAddrs()) == 0 {
@@ -241,9 +264,114 @@ func (w *c44World) run(ticker *vnode, rounds int) {
 		vtime.Advance(100 * vtime.Millisecond)
 		ticker.hsTick()
 		w.net.collect()
+		w.noteFirsts()
 	}
 	w.net.flushFIFO(100)
 	w.net.inflight = nil
+}
+
+// c44IsFirstMsg: the datagram is a first handshake message (IX stage 0: no receiver index yet, counter 1).
+func c44IsFirstMsg(b []byte) bool {
+	var h header.H
+	if len(b) < header.Len || h.Parse(b) != nil {
+		return false
+	}
+	return h.Type == header.Handshake && h.RemoteIndex == 0 && h.MessageCounter == 1
+}
+
+func c44IsHandshake(b []byte) bool {
+	var h header.H
+	if len(b) < header.Len || h.Parse(b) != nil {
+		return false
+	}
+	return h.Type == header.Handshake
+}
+
+func (w *c44World) peerByUDP(a netip.AddrPort) (int, bool) {
+	for i, p := range w.peers {
+		if p.udp == a {
+			return i, true
+		}
+	}
+	return 0, false
+}
+
+// noteFirsts remembers the first handshake messages peers have put on the wire towards the lighthouse (the network
+// may deliver them again later).
+func (w *c44World) noteFirsts() {
+	for _, pk := range w.net.inflight {
+		if pk.To != w.lh.udp || !c44IsFirstMsg(pk.Data) {
+			continue
+		}
+		if i, ok := w.peerByUDP(pk.From); ok {
+			w.first[i] = vpkt{From: pk.From, To: pk.To, Data: append([]byte(nil), pk.Data...)}
+		}
+	}
+}
+
+func (w *c44World) lhIndexes() map[uint32]bool {
+	out := map[uint32]bool{}
+	hmap := w.lh.f.hostMap
+	hmap.RLock()
+	for idx := range hmap.Indexes {
+		out[idx] = true
+	}
+	hmap.RUnlock()
+	return out
+}
+
+// lhHolder: the peer whose certificate the lighthouse's primary tunnel for that overlay address carries ("" = none),
+// whether the lighthouse was the responder of that handshake, and the handshake time it recorded.
+func (w *c44World) lhHolder(a netip.Addr) (peer string, responder bool, hsTime uint64) {
+	hmap := w.lh.f.hostMap
+	hmap.RLock()
+	defer hmap.RUnlock()
+	hi := hmap.Hosts[a]
+	if hi == nil || hi.ConnectionState == nil || hi.ConnectionState.peerCert == nil {
+		return "", false, 0
+	}
+	return w.byFP[hi.ConnectionState.peerCert.Fingerprint].Peer, !hi.ConnectionState.initiator, hi.lastHandshakeTime
+}
+
+// deliverFirst hands a (delayed / duplicated) first handshake message of that peer to the lighthouse, classifies what
+// the lighthouse did with it from what can be observed from outside the responder (hostmap, wire) and lets the
+// network settle.
+func (w *c44World) deliverFirst(peer int, pk vpkt, what string) {
+	p := w.peers[peer]
+	holder, _, _ := w.lhHolder(p.vpnIP)
+	before := w.lhIndexes()
+	w.net.collect()
+	w.net.inflight = append(w.net.inflight, pk)
+	w.net.deliverAt(len(w.net.inflight)-1, false)
+	replied := false
+	for _, q := range w.net.inflight {
+		if q.From == w.lh.udp && q.To == p.udp && c44IsHandshake(q.Data) {
+			replied = true
+		}
+	}
+	fresh := false
+	for idx := range w.lhIndexes() {
+		if !before[idx] {
+			fresh = true
+		}
+	}
+	out := ""
+	switch {
+	case fresh && replied:
+		out = "accepted (new tunnel, reply sent)"
+	case !fresh && replied:
+		out = "refused: already answered, the earlier reply was sent again"
+	case !fresh && !replied:
+		out = "refused after certificate verification, no reply"
+		if holder != "" && holder != c44Peers[peer].Key {
+			w.c.Add("c44_"+what+": refused while the address's tunnel carries another peer's certificate", 1)
+		}
+	default:
+		w.c.Broken("%s of %s: a tunnel appeared but no reply was sent", what, c44Peers[peer].Key)
+	}
+	w.c.Add("c44_"+what+": "+out, 1)
+	w.notes = append(w.notes, what+":"+c44Peers[peer].Key+" -> "+out)
+	w.run(p, 4)
 }
 
 func (w *c44World) lhAddrFor(p *vnode) netip.Addr {
@@ -256,6 +384,12 @@ func (w *c44World) lhAddrFor(p *vnode) netip.Addr {
 func (w *c44World) apply(e c44Ev) {
 	w.hist = append(w.hist, e.String())
 	nb, out := make([]byte, 12), make([]byte, mtu)
+	switch e.Op {
+	case "hs", "hsOut", "hsLost", "hsHold":
+		// handshakes of different events are built at different (virtual) times: the lighthouse compares the times
+		// their first messages carry when two of them claim one overlay address
+		vtime.Advance(vtime.Second)
+	}
 	switch e.Op {
 	case "hs":
 		p := w.peers[e.Peer]
@@ -284,6 +418,41 @@ func (w *c44World) apply(e c44Ev) {
 			i++
 		}
 		w.net.inflight = nil
+	case "hsHold":
+		p := w.peers[e.Peer]
+		if _, already := w.held[e.Peer]; !already {
+			at := uint64(vtime.Now().UnixNano())
+			p.f.SendMessageToVpnAddr(header.Test, header.TestRequest, w.lhAddrFor(p), []byte("c44"), nb, out)
+			p.settle()
+			w.net.collect()
+			var rest []vpkt
+			for _, pk := range w.net.inflight {
+				if pk.From == p.udp && pk.To == w.lh.udp && c44IsFirstMsg(pk.Data) {
+					if _, have := w.held[e.Peer]; !have {
+						w.held[e.Peer], w.heldAt[e.Peer] = pk, at
+					}
+					continue
+				}
+				rest = append(rest, pk)
+			}
+			w.net.inflight = rest
+			w.net.flushFIFO(100) // the peer has a tunnel already / is waiting for an answer: nothing to delay
+			w.net.inflight = nil
+			if _, have := w.held[e.Peer]; have {
+				w.c.Add("c44_first messages delayed", 1)
+			}
+		}
+	case "hsLate":
+		if pk, ok := w.held[e.Peer]; ok {
+			delete(w.held, e.Peer)
+			delete(w.heldAt, e.Peer)
+			w.first[e.Peer] = pk
+			w.deliverFirst(e.Peer, pk, "delayed first message")
+		}
+	case "hsDup":
+		if pk, ok := w.first[e.Peer]; ok {
+			w.deliverFirst(e.Peer, pk, "duplicated first message")
+		}
 	case "close":
 		for _, a := range w.peerAddrs(e.Peer) {
 			if hi := w.lh.f.hostMap.QueryVpnAddr(a); hi != nil {
@@ -404,6 +573,30 @@ func (w *c44World) key() string {
 	sort.Strings(kn)
 	kn = compactStrings(kn)
 	b, _ := json.Marshal(map[string]any{"cfg": w.cfg.Name, "dns": w.dnsState(), "completed": comp, "known": kn, "selfKnown": w.selfKnown})
+	return string(b)
+}
+
+// netKey: what the network and the peers remember (it decides what later events do, not what the responder answers):
+// delayed first messages (and whether the lighthouse meanwhile holds a responder-side tunnel for that address that is
+// not older), recorded first messages that may be duplicated, valid peers still waiting for an answer.
+func (w *c44World) netKey(dup map[int]bool) string {
+	var held, first, pend []string
+	for i := range c44Peers {
+		if _, ok := w.held[i]; ok {
+			rel := "fresh"
+			if holder, resp, t := w.lhHolder(w.peers[i].vpnIP); holder != "" && resp && t >= w.heldAt[i] {
+				rel = "older than the tunnel of " + holder
+			}
+			held = append(held, c44Peers[i].Key+": "+rel)
+		}
+		if _, ok := w.first[i]; ok && dup[i] {
+			first = append(first, c44Peers[i].Key)
+		}
+		if p, ok := w.peers[i]; ok && c44Peers[i].Kind == "valid" && len(p.pendingAddrs()) > 0 {
+			pend = append(pend, c44Peers[i].Key)
+		}
+	}
+	b, _ := json.Marshal(map[string]any{"held": held, "first": first, "peerPending": pend})
 	return string(b)
 }
 
@@ -592,6 +785,9 @@ func (w *c44World) judge(q c44Query, st *c44Stats, stateDesc func() map[string]a
 	}()
 	viol := func(sig string, extra map[string]any) {
 		d := map[string]any{"history": w.hist, "config": w.cfg.Name, "query": q.String(), "state": stateDesc()}
+		if len(w.notes) > 0 {
+			d["observed"] = w.notes
+		}
 		if len(rw.msgs) > 0 {
 			d["response"] = rw.msgs[len(rw.msgs)-1].String()
 		}
@@ -785,11 +981,37 @@ func c44TXTIsCert(txt string, ci c44CertInfo) bool {
 	return norm(txt) == norm(ci.JSON) || strings.Contains(norm(txt), ci.Fingerprint)
 }
 
+// c44NetPeers: the peers whose first message the network may delay (hold) / deliver twice (dup).
+func c44NetPeers(thorough bool) (hold, dup []int) {
+	if thorough {
+		return []int{c44Ghost, 0, c44Phantom, 2}, []int{0, c44Ghost, 2}
+	}
+	return []int{c44Ghost}, []int{0}
+}
+
+// menu: the fixed alphabet plus what the network can do in this state.
+func (w *c44World) menu(alphabet []c44Ev, hold, dup []int) []c44Ev {
+	evs := alphabet[:len(alphabet):len(alphabet)]
+	for _, i := range hold {
+		if _, ok := w.held[i]; ok {
+			evs = append(evs, c44Ev{"hsLate", i})
+		} else {
+			evs = append(evs, c44Ev{"hsHold", i})
+		}
+	}
+	for _, i := range dup {
+		if _, ok := w.first[i]; ok {
+			evs = append(evs, c44Ev{"hsDup", i})
+		}
+	}
+	return evs
+}
+
 func c44Alphabet(thorough bool) []c44Ev {
 	var evs []c44Ev
-	hs := []int{0, 1, 2, 3, 4, 5, 6, 7, 8}
+	hs := []int{0, 1, 2, 3, 4, 5, 6, 7, 8, c44Ghost}
 	if thorough {
-		hs = append(hs, 9, 10)
+		hs = append(hs, 9, 10, c44Phantom)
 	}
 	for _, i := range hs {
 		evs = append(evs, c44Ev{"hs", i})
@@ -807,8 +1029,14 @@ func TestVerifC44(t *testing.T) {
 	st := &c44Stats{n: map[string]int64{}}
 	queries := c44QuerySet(c.Thorough())
 	alphabet := c44Alphabet(c.Thorough())
+	holdPeers, dupPeers := c44NetPeers(c.Thorough())
+	dupSet := map[int]bool{}
+	for _, i := range dupPeers {
+		dupSet[i] = true
+	}
 	c.Set("queries_per_state", len(queries))
-	c.Set("event_alphabet", len(alphabet))
+	c.Set("event_alphabet", len(alphabet)+2*len(holdPeers)+len(dupPeers))
+	c.Set("event_alphabet_note", fmt.Sprintf("%d events offered in every state + per state: hsHold or hsLate for %d peers (ghost4 first: it shares its overlay address with alpha4 under another certificate name), hsDup for %d peers once a first message of theirs was on the wire", len(alphabet), len(holdPeers), len(dupPeers)))
 	c.Set("clients", len(c44Clients))
 	c.Set("peers", len(c44Peers))
 
@@ -930,7 +1158,8 @@ func TestVerifC44(t *testing.T) {
 						c.Sample(map[string]any{"config": cfg.Name, "history": append([]string{}, w.hist...), "dns_state": desc})
 					}
 				}
-				return key, alphabet
+				// BFS identity = what is judged + what the network and the peers remember (that decides later events)
+				return key + "|" + w.netKey(dupSet), w.menu(alphabet, holdPeers, dupPeers)
 			},
 		})
 		perCfg[cfg.Name] = map[string]any{"states": res.States, "transitions": res.Transitions, "max_depth": res.MaxDepth}
@@ -942,6 +1171,7 @@ func TestVerifC44(t *testing.T) {
 	c.Set("explanation", "states = distinct (responder-visible state, oracle sets) reached by real handshake/close/reload histories up to the stated depth; in each distinct state the whole query product is answered by the real handler and judged; transitions = histories replayed on fresh real nodes. The depth cap is the stated bound.")
 
 	c.Assume("'completed a handshake' = a tunnel with that certificate appeared in the lighthouse's main hostmap (certificate verification itself is C05/C09); certificates of closed tunnels remain 'peers it has completed handshakes with'")
+	c.Assume("a handshake whose first message the lighthouse refuses after verifying its certificate (too old for the tunnel it holds for that address, retransmit of an answered message) is not a completed handshake: no tunnel with that certificate appears and no new reply is produced; decided from hostmap and wire, not from the DNS tables")
 	c.Assume("a name is 'known' when its certificate's handshake completed while the responder was enabled and the records were not cleared by a disable since (or it is the responder's own name while enabled); names of earlier handshakes are neither required to resolve nor forbidden to")
 	c.Assume("with several questions NXDOMAIN is only objected to when every question names a known name (weak reading); NXDOMAIN is never required")
 	c.Assume("names are matched ASCII-case-insensitively; certificate names of the alphabet are plain ASCII host names")
@@ -959,6 +1189,16 @@ func TestVerifC44(t *testing.T) {
 			}
 		}
 		c.Require(txt > 0, "no TXT answer was ever produced: %v", st.n)
+		// the handshakes that are refused AFTER their certificate verified really occurred, next to accepted ones
+		for _, k := range []string{
+			"c44_first messages delayed",
+			"c44_delayed first message: accepted (new tunnel, reply sent)",
+			"c44_delayed first message: refused after certificate verification, no reply",
+			"c44_delayed first message: refused while the address's tunnel carries another peer's certificate",
+			"c44_duplicated first message: refused: already answered, the earlier reply was sent again",
+		} {
+			c.Require(c.Counter(k).Load() > 0, "network event outcome %q never occurred", k)
+		}
 		c.Require(c.DistinctCount("outcomes") >= 8, "only %d distinct outcomes", c.DistinctCount("outcomes"))
 	}
 }
